@@ -429,6 +429,7 @@ static void
 nextinto(struct token *t)
 {
 	static bool newline = true;
+	struct token save;
 
 #ifdef CPROC_VERIF
 	verif_ppquiescent();
@@ -436,7 +437,10 @@ nextinto(struct token *t)
 	for (;;) {
 		scan(t);
 		if (newline && t->kind == THASH) {
+			/* directive() scans into tok, which the caller may still need when peeking ahead */
+			save = tok;
 			directive();
+			tok = save;
 		} else {
 			newline = t->kind == TNEWLINE;
 			break;
